@@ -587,7 +587,13 @@ async fn run_actor_lifecycle_inner<T: Actor>(
             // Messages can be: regular message envelopes or graceful stop signals
             maybe_message = receiver.recv() => {
                 match maybe_message {
-                    Some(MailboxMessage::Envelope { payload, reply_channel, actor_ref }) => {
+                    Some(MailboxMessage::Envelope {
+                        payload,
+                        reply_channel,
+                        actor_ref,
+                        #[cfg(feature = "deadlock-detection")]
+                        asker,
+                    }) => {
                         #[cfg(feature = "tracing")]
                         let msg_span = tracing::debug_span!("actor_process_message");
                         #[cfg(not(feature = "tracing"))]
@@ -607,7 +613,14 @@ async fn run_actor_lifecycle_inner<T: Actor>(
 
                         run_with_actor_scope!(
                             actor_id,
-                            payload.handle_message(&mut actor, actor_ref, reply_channel)
+                            payload
+                                .handle_message(
+                                    &mut actor,
+                                    actor_ref,
+                                    reply_channel,
+                                    #[cfg(feature = "deadlock-detection")]
+                                    asker,
+                                )
                                 .instrument(msg_span)
                         );
 
